@@ -431,6 +431,46 @@ theorem tleFloatSigned_core (s sep : Char) (m e : Nat) (hs : s = '+' ∨ s = '-'
   unfold tleFloatSigned
   simp only [hc, if_true, hsel, hr, htake, hdrop, hpf, digitsVal_natStr]
 
+/-- reading `s . D sep E` where the mantissa `D` is any non-empty run of digits (leading zeros allowed) -/
+theorem tleFloatSigned_digits (s sep : Char) (D : Str) (m e : Nat) (hs : s = '+' ∨ s = '-')
+    (hsep : sep = '+' ∨ sep = '-') (hD : ∀ c ∈ D, isDigit c = true) (hne : D ≠ []) (hv : digitsValAux D 0 = some m) :
+    tleFloatSigned (s :: '.' :: (D ++ sep :: natStr e))
+    = .ok ⟨s = '-', m, if sep = '-' then (D.length : Int) + e else (D.length : Int) - e⟩ := by
+  have hE : ∀ c ∈ natStr e, c ≠ sep := by
+    intro c hc
+    have := isDigit_not_sign (natStr_all_digits e c hc)
+    rcases hsep with h | h <;> subst h <;> simp [this]
+  have hr : rfind (s :: '.' :: (D ++ sep :: natStr e)) sep = some (2 + D.length) := by
+    have : (s :: '.' :: (D ++ sep :: natStr e)) = (s :: '.' :: D) ++ sep :: natStr e := by simp
+    rw [this, rfind_last _ _ _ hE]
+    simp; omega
+  have htake : (s :: '.' :: (D ++ sep :: natStr e)).take (2 + D.length) = s :: '.' :: D := by
+    simp [Nat.add_comm 2]
+  have hdrop : (s :: '.' :: (D ++ sep :: natStr e)).drop (2 + D.length + 1) = natStr e := by
+    have : (s :: '.' :: (D ++ sep :: natStr e)) = (s :: '.' :: D ++ [sep]) ++ natStr e := by simp
+    rw [this]
+    apply List.drop_left'
+    simp; omega
+  have hpf : pyFloatCore (s :: '.' :: D) = .ok ⟨s = '-', m, D.length⟩ := by
+    unfold pyFloatCore
+    rcases hs with h | h <;> subst h <;>
+      simp [splitSign, isDigit, hv, hne]
+  have hnoplus : ∀ c ∈ D, c ≠ '+' := fun c hc => (isDigit_not_sign (hD c hc)).1
+  have hc : ((List.drop 1 (s :: '.' :: (D ++ sep :: natStr e))).contains '+' ||
+      (List.drop 1 (s :: '.' :: (D ++ sep :: natStr e))).contains '-') = true := by
+    rcases hsep with h | h <;> subst h <;> simp
+  have hsel : (if (List.drop 1 (s :: '.' :: (D ++ sep :: natStr e))).contains '+' = true then '+' else '-') = sep := by
+    rcases hsep with h | h
+    · subst h; simp
+    · subst h
+      have : ('.' :: (D ++ '-' :: natStr e)).contains '+' = false := by
+        simp
+        exact ⟨fun h => hnoplus _ h rfl, fun h => (isDigit_not_sign (natStr_all_digits _ _ h)).1 rfl⟩
+      show (if ('.' :: (D ++ '-' :: natStr e)).contains '+' = true then '+' else '-') = '-'
+      rw [this]; rfl
+  unfold tleFloatSigned
+  simp only [hc, if_true, hsel, hr, htake, hdrop, hpf, digitsVal_natStr]
+
 theorem strip_of_ends {l : Str} {a z : Char} (h0 : l[0]? = some a) (h1 : l[l.length - 1]? = some z)
     (ha : isWs a = false) (hz : isWs z = false) : strip l = l := by
   rw [strip_eq_iff]
